@@ -15,6 +15,8 @@ META = {
                   "followed by components none of which is '..' (for any absolute root), url.PathEscape model is injective and record paths are injective on persisted labels. "
                   "The model is tied to label.go, sourceFile.go and project.go by running both on every string of "
                   "length <= 5 (quick) / <= 7 (thorough) over {a . / : @} plus random strings, all outputs compared; "
+                  "record paths also for names and packages of 64 .. 512 (thorough .. 4096) bytes that share a prefix and differ at the end, "
+                  "in the middle or at the front (compared with the model, checked for collisions); "
                   "the target builtin is called (and, for a sample, BUILD.dawn files are loaded) in projects rooted at real "
                   "directories with every path of <= 3 (quick) / 4 (thorough) components over a vocabulary derived from the "
                   "root's own name and its parent's, the resolved OS paths are checked to lie inside the root and are "
